@@ -154,7 +154,7 @@ func (d *coreDriver) oneTrace(id int) error {
 	d.rnd = rnd
 	lay := drvLayouts[rnd.Intn(len(drvLayouts))].arch
 	// bulk writes: more than a thousand points into one archive in one call (the file has 8 pages)
-	big := (d.prop == "C05" || d.prop == "ALL") && id%8 == 5
+	big := (d.prop == "C05" || d.prop == "ALL") && id%8 == 5 && id < 96 // TLC needs about a minute per such trace
 	if big {
 		lay = []MArch{{1, 2600}, {60, 50}}
 	}
